@@ -4,6 +4,7 @@ line per op; same protocol as harness/c16*.cpp.  Imports Model/ and Gen/ only.
 
   tables  <name> <c>   generated table `name` at class count c, Float instance, doubles as bit patterns
   tablesq <name> <c>   the same at the Rat instance, values as num/den
+  tablesf <name> <c>   the same at the Float32 instance (QpFloatType = float), bit patterns
 -/
 import SharkVerif.Gen.McTables
 import SharkVerif.Model.McSmo
@@ -11,6 +12,9 @@ import SharkVerif.Model.McLinear
 open SharkVerif.Mc SharkVerif.Gen
 
 def fbits (x : Float) : String := toString x.toBits.toNat
+/-- `(float)n` for the single-precision instance of the generated tables (CSvmTrainer's default CacheType) -/
+instance : NatCast Float32 := ⟨Float32.ofNat⟩
+def f32bits (x : Float32) : String := toString x.toBits.toNat
 def qstr (x : Rat) : String := s!"{x.num}/{x.den}"
 
 def dumpSparse {α : Type} [OfScientific α] (show_ : α → String) (s : Sparse α) : String :=
@@ -207,6 +211,10 @@ def step (st : St) (line : String) : St × String :=
   | ["tables", name, c] =>
     match c.toNat?, (McTables.table name (c.toNat?.getD 0) : Option (Sparse Float)) with
     | some _, some t => (st, dumpSparse fbits t)
+    | _, _ => (st, "bad-op")
+  | ["tablesf", name, c] =>
+    match c.toNat?, (McTables.table name (c.toNat?.getD 0) : Option (Sparse Float32)) with
+    | some _, some t => (st, dumpSparse f32bits t)
     | _, _ => (st, "bad-op")
   | ["tablesq", name, c] =>
     match c.toNat?, (McTables.table name (c.toNat?.getD 0) : Option (Sparse Rat)) with
